@@ -266,6 +266,24 @@ def check_wrapper_partial(so, si, how, stats):
         if sig2 is None or [(q.name, q.kind) for q in sig2.parameters.values()] != [(q.name, q.kind) for q in sig.parameters.values()]:
             stats.fail('C19/wrapper/partial-subclass-differs', case, '%s: reported %s; for an instance of a subclass of functools.partial over the same: %s' % (
                 desc, sig, sig2 if sig2 is not None else 'ValueError'))
+        if how == 'positional':
+            # the bound callee is an object whose truth value is its own business (an empty callable container is false):
+            # what is reported for it does not depend on that
+            ns = dict(g)
+            exec('class Hooks(object):\n    def __init__(self, n):\n        self.n = n\n    def __len__(self):\n        return self.n\n'
+                 '    def __call__(%s):\n        return 0\n' % universe.spec_text((Par('self', PO if any(q.kind == PO for q in si) else POK),) + tuple(si)), ns)
+            views = []
+            for n in (0, 1):
+                try:
+                    sh = sigtools.signature(functools.partial(w, ns['Hooks'](n)))
+                    views.append([(q.name, q.kind) for q in sh.parameters.values()])
+                except ValueError:
+                    views.append(None)
+            stats.case()
+            if views[0] != views[1]:
+                stats.fail('C19/wrapper/depends-on-truth-value-of-the-callee', case,
+                           '%s with callee = an instance of a class with __call__(self, %s) and __len__: reported parameters %r while len() is 0 and %r while it is 1' % (
+                               desc, universe.spec_text(si), views[0], views[1]))
         if resolved:
             stats.nontriv((universe.spec_text(so), universe.spec_text(si), how))
             stats.sample('wrapper/positional', {'source': src, 'reported': str(sig)})
